@@ -108,6 +108,11 @@ impl Events {
         ensures r.spec_len() == 0,
     { unimplemented!() }
 
+    #[verifier::external_body]
+    pub fn is_empty(&self) -> (r: bool)
+        ensures r == (self.spec_len() == 0),
+    { unimplemented!() }
+
     // `len`/`get` are the index form of `events.iter()` (rewrite R9d)
     #[verifier::external_body]
     pub fn len(&self) -> (r: usize)
@@ -932,7 +937,7 @@ impl Accept {
 //@end
 
 #[verifier::exec_allows_no_decreases_clause]
-//@extract file=actix-server/src/accept.rs item="impl Accept / fn poll_with" props=C05,C06 intended_panics noreach
+//@extract file=actix-server/src/accept.rs item="impl Accept / fn poll_with" props=C05,C06 intended_panics noreach trace_calls="poll.poll,process_timeout"
 //@spec
     requires
         old(self).wf(),
@@ -947,10 +952,14 @@ impl Accept {
             sockets_wf(sockets@, self.reg().token_bound()),
             i5(self, sockets@),
             self.reg() == old(self).reg(),
+            // every wake-up of the accept loop ends with the back-off check (process_timeout): whatever woke the poll,
+            // an expired back-off is noticed in the same iteration   [C05]
+            r24_trace.len() == 0 || r24_trace.last() == 1int,   // [C05]
 //@loop 2
         invariant
             r9_n <= events.spec_len(),
             events.bound() == self.reg().token_bound(),
+            r24_trace.len() > 0 && r24_trace.last() == 0int,
             self.wf(),
             sockets_wf(sockets@, self.reg().token_bound()),
             i5(self, sockets@),
